@@ -915,7 +915,9 @@ def c05_numeric(r) -> dict:
     labels = r['labels']
     J = len(labels)
     V = {lab: log(Numeric(float(a))) for lab, a in zip(labels, r['a'])}
-    av = {lab: Numeric(int(x)) for lab, x in reversed(list(zip(labels, r['av'])))}
+    # ONE expression object per availability value, shared by the alternatives that have it (users write CAR_AV once)
+    shared_av = {0: Numeric(0), 1: Numeric(1)}
+    av = {lab: shared_av[int(x)] for lab, x in reversed(list(zip(labels, r['av'])))}
     want = vals(r['p'], r.get('refs'))
     tol = TOL_EXACT if r['exact'] else TOL_TERM
     for vname, fam, is_log, build in variants(r, V, av, what='c06', scale=lambda x: Beta('mu_scale', x, None, None, 0)):
